@@ -78,3 +78,12 @@ package conn
 //@   ensures [sendNonceInvariantKept] sendState(sc)
 //@   loop 1:
 //@     invariant sendState(sc)
+
+// The receiver's limit on one wire packet is the size of a packet carrying a FULL payload of the
+// configured size (the sender packetises by the same configuration value).
+//@ func (c *MConnection) maxPacketMsgSize() (r int)
+//@   for C20
+//@   requires c != nil && 0 <= c.config.MaxPacketMsgPayloadSize
+//@   modifies *
+//@   atstore PacketMsg.Data requires [sampleCarriesTheConfiguredPayloadSize] len(new) == c.config.MaxPacketMsgPayloadSize
+//@   atstore PacketMsg.EOF requires [sampleIsALastPacket] new
